@@ -1110,7 +1110,7 @@ LEVEL_NOTE = {
                  "(TLC-generated, seeded random up to 8 tasks, curated) is validated event by event by TLC against PieTrace.tla, and fixed-dimension batches "
                  "must be exact behaviours of Pie.tla (PieConform.tla; deviations are MODEL-DRIFT warnings). Trusted base: TLC, the specification, the Rust "
                  "harness (interpreter task, instrumented resource/checkers/tracker). Bounded, no unbounded proof.",
-    "dag-trace": "DagPK.tla (algorithm as written) model-checked against DagCore.tla for all operation sequences within node/operation bounds; TLC-simulated and "
+    "dag-trace": "DagPK.tla (algorithm as written) model-checked against DagCore.tla for all operation sequences within node/operation bounds, and by an inductive step (DagInd.tla: one step of every operation from every invariant state of at most 4-5 nodes, i.e. sequences of any length); TLC-simulated and "
                  "random operation sequences executed on pie_graph::DAG are validated by TLC against the abstract DAG and compared with DagPK's exact ranks. "
                  "Trusted base: TLC, the specification, harness dag_run. Bounded.",
     "unit-trace": "Small TLA+ model advanced from the arguments of the logged calls; every result of the real code compared by TLC. Trusted base: TLC, the "
